@@ -306,8 +306,8 @@ func TestC01(t *testing.T) {
 		rec.Rule("rapid playouts (<=40 plies) from startpos / perft-suite / bench / synthetic / motif roots, every position along the way compared as a move SET with the reference rules (carried board, and re-loaded from FEN with raw and normalised en-passant field); complete K+X v K table; perft(1..2) vs reference; non-trivial = some pseudo-legal move is illegal, or a castle / en-passant / promotion is legal, or an en-passant capture is pseudo-legal but illegal; distinct by placement+stm+rights+ep")
 		rec.Assume("reference rules implementation verif/refchess (validated against published perft numbers at start of every run)")
 		rec.Assume("input domain: valid positions as defined in the property; clocks 0..100")
-		rec.Rapid(t, "playout", evid.Pick(6000, 150000), playoutProp(rec))
-		rec.Rapid(t, "perft", evid.Pick(1500, 30000), perftProp(rec))
+		rec.Rapid(t, "playout", evid.Pick(40000, 600000), playoutProp(rec))
+		rec.Rapid(t, "perft", evid.Pick(8000, 100000), perftProp(rec))
 		table3(rec)
 		uciPerft(rec)
 	}, func(check string, raw json.RawMessage) error {
